@@ -285,6 +285,7 @@ def enumerate_creation(ctx, g: ModelGrammar, decider_cls: str, max_depth: int, c
         it = Interp(prog, None, lambda *_: None, call_model, max_depth=60, max_traces=2)
         it.allow_recursion = True
         it.strict_keys = True
+        it.strict_attrs = True       # reading an attribute the object was never given raises, as in Python
         it.while_cap = 12
         genv = {"grammar.alternatives": dict(alternatives), "grammar.all_nodes": set(all_nodes), "grammar.recursive_prods": set(recursive),
                 "grammar.starting_symbol": C(g.start)}
@@ -304,6 +305,8 @@ def enumerate_creation(ctx, g: ModelGrammar, decider_cls: str, max_depth: int, c
             notes.append(f"script {script}: a branch depends on something the model does not determine ({it.fork_sites[:2]})")
             res = []
         runs += 1
+        if len(res) > 1:
+            notes.append(f"script {script}: {len(res)} interpretations (the model does not determine the branch at {it.fork_sites[:1]})")
         for trace, rv, nts in res[:1]:
             raised = [e for e in trace if e.kind == "raise"]
             caught = [e for e in trace if e.kind == "caught"]
